@@ -36,8 +36,24 @@ def transformed_uspec(uspec: dict, var: dict) -> dict:
     return u
 
 
-def step_numeric(uspec, ops, values, opts, zero_d, keep=None):
-    U, net = dyn.build(uspec, ops)
+def step_numeric(uspec, ops, values, opts, zero_d, keep=None, res=None, order=None):
+    def early(U, net):
+        """A step in the middle of construction (the network may be incomplete or not yet
+        valid: failures are the caller's problem, the final result must not depend on it)."""
+        present = {U.label(el) for el in net.elements}
+        try:
+            step_numeric_on(U, net, {r: v for r, v in values.items() if r in present}, opts, zero_d)
+            if res is not None:
+                res.faults["step_during_construction"] += 1
+        except Exception:
+            if res is not None:
+                res.probes["step_during_construction_raised"] += 1
+
+    U, net = dyn.build(uspec, ops, on_early_step=early)
+    if order is not None:  # the caller's dict of initial conditions in another insertion order
+        keys = sorted(values)
+        np.random.default_rng(order).shuffle(keys)
+        values = {k: values[k] for k in keys}
     if keep is not None:
         keep.extend((U, net))
     return step_numeric_on(U, net, values, opts, zero_d)
@@ -151,7 +167,12 @@ def execute(trace: dict) -> Result:
             got = topo_norm(dyn.topo_of_ops(var["build"]))
             if got != topo_norm(topo):
                 raise core.HarnessError(f"variant {i} does not build the target topology")
-            out = step_numeric(u2, var["build"], values, opts, zero_d)
+            out = step_numeric(u2, var["build"], values, opts, zero_d, res=res, order=var.get("ic_order"))
+            for o in var["build"]:
+                if o.get("counts"):
+                    res.faults["failed_call_not_retried"] += 1
+                elif o.get("fault") or o.get("malformed"):
+                    res.faults["failed_call_then_retry"] += 1
             compare(base, out, what + " (numpy)")
             check_share(u2, topo, values, opts, out, res, what)
             res.probes["variant_compared:numpy"] += 1
@@ -267,7 +288,41 @@ def generate(prop: str, run_seed: int, tier: str = "quick") -> dict:
             o, n = rng.choice(topo["origins"])
             build.insert(rng.randint(0, len(build)), {"op": "add_origin", "o": o, "n": n})
             build.append({"op": "add_origin", "o": o, "n": n})
-        var = {"build": build, "n_builders": nb}
+        if rng.random() < 0.35:
+            # fault + retry: a bulk call fails half-way (failing iterator / malformed tail) and the
+            # caller simply issues it again
+            out = []
+            for o in build:
+                if o["op"] in ("add_path", "add_links", "add_nodes") and rng.random() < 0.5:
+                    n = len(o.get("path") or o.get("items") or o.get("ns"))
+                    if o["op"] == "add_path" and rng.random() < 0.4:
+                        out.append(dict(o, path=o["path"] + ["x0"], malformed=True))
+                    else:
+                        out.append(dict(o, fault={"kind": "iter_raise", "at": rng.randint(0, n)}))
+                out.append(o)
+            build = out
+        if rng.random() < 0.3:
+            # a failed call that is NOT re-issued: add_path receives its complete well-formed path and
+            # then fails (a trailing link / the iterator raising at the very end); the caller then
+            # looks at the graph and adds with single calls only what is missing (on this tree:
+            # nothing but the destination; nothing is assumed about what a failed call leaves)
+            spare = [f"l{i}" for i in range(len(U["links"])) if f"l{i}" not in {l for _, l, _ in topo["links"]}]
+            out = []
+            for o in build:
+                if o["op"] == "add_path" and not o.get("fault") and not o.get("malformed") and rng.random() < 0.6:
+                    if spare and rng.random() < 0.5:
+                        out.append(dict(o, path=o["path"] + [spare[0]], tail=spare[0], destination=None, malformed=True, counts=True))
+                    else:
+                        out.append(dict(o, destination=None, fault={"kind": "iter_raise", "at": len(o["path"])}, counts=True))
+                    if o.get("destination") is not None:
+                        out.append({"op": "add_destination", "d": o["destination"], "n": o["path"][-1]})
+                else:
+                    out.append(o)
+            build = out
+        if rng.random() < 0.35:
+            for _ in range(rng.randint(1, 2)):  # steps while the network is still being built
+                build.insert(rng.randint(1, len(build)), {"op": "early_step"})
+        var = {"build": build, "n_builders": nb, "ic_order": rng.getrandbits(16) if rng.random() < 0.5 else None}
         if rng.random() < 0.6:
             var["rename_mode"], var["rename"] = gen_rename(rng, U, refs_all)
         if rng.random() < 0.6:
@@ -301,6 +356,15 @@ def simplify_op(var: dict):
         yield dict(var, also=[])
     if var.get("inplace"):
         yield dict(var, inplace=False)
+    if var.get("ic_order") is not None:
+        yield dict(var, ic_order=None)
+    b = var["build"]
+    drop = lambda o: o["op"] == "early_step" or ((o.get("fault") or o.get("malformed")) and not o.get("counts"))  # noqa: E731
+    if any(drop(o) for o in b):
+        yield dict(var, build=[o for o in b if not drop(o)])
+        for i, o in enumerate(b):
+            if drop(o):
+                yield dict(var, build=b[:i] + b[i + 1:])
 
 
 def simplify_trace(trace: dict):
@@ -321,7 +385,8 @@ TIERS = {
     "C14": {
         "quick": {"runs": 12000, "selftest": 16, "chunk": 200, "wall_cap": 900, "run_timeout": 120},
         "thorough": {"runs": 400000, "selftest": 64, "chunk": 1000, "wall_cap": 3300, "run_timeout": 120,
-                     "expect_probes": ["schedule_permutation", "turnrate_scale", "inplace_transform_after_step", "rename:fresh", "rename:dup", "rename:permute",
+                     "expect_probes": ["schedule_permutation", "turnrate_scale", "inplace_transform_after_step",
+                                       "step_during_construction", "failed_call_then_retry", "failed_call_not_retried", "rename:fresh", "rename:dup", "rename:permute",
                                        "variant_compared:numpy", "variant_compared:sx", "variant_compared:mx",
                                        "share_checked:one-entering", "share_checked:several-entering", "topology:merge",
                                        "topology:bifurcation_1in", "topology:bifurcation_multi_in", "topology:interior_ramp"]},
@@ -331,7 +396,7 @@ RULES = {
     "C14": "One run = one random valid target network (4-9 nodes; merges, bifurcations with one and with several entering "
     "links, interior ramps, rings) built canonically and as 2-5 variants: 1-4 builder tasks interleaved by the seeded "
     "scheduler, each through a random API route (node-first or implied nodes, add_link/add_links/add_path, origins and "
-    "destinations before or after their links, repeated attachment of the same object), under a renaming (fresh, all-equal, "
+    "destinations before or after their links, repeated attachment of the same object; bulk calls that fail half-way through a failing iterator or a malformed tail and are issued again; steps taken while the network is still being built), under a renaming (fresh, all-equal, "
     "permuted, long names) and per-node positive scale factors (1e-3..1e3) on the turn rates of the leaving links; all "
     "stepped with the same per-element values under NumPy and, on a sample, SX/MX; on half of the variants the same renaming and scaling are also applied in place to the already stepped canonical network, which is stepped again. Non-trivial = at least one variant "
     "compared with the canonical build; distinct = distinct (number of builders, sequence of construction calls, renaming "
